@@ -331,7 +331,7 @@ class Sim:
             fb["raised"] = a[1] if a[0] == "raised" else None
         elif op in O.MUTATORS:
             self._mutate(i, hi, op, fb, inject=st.get("inject"))
-        elif op in O.FORKS or op in ("reload", "stranger"):
+        elif op in O.FORKS or op in ("reload", "stranger", "other"):
             self._fork(i, hi, op)
         elif op in O.DERIVES:
             self._derive(i, hi, op)
@@ -488,6 +488,35 @@ class Sim:
                 self.last_raise.append(None)
                 self.armed.append(False)
                 self.stats["fork:reload"] += 1
+                self._log(i, hi, op, "-> h%d" % (len(self.world) - 1))
+                self._check_others(i, hi, op, others)
+                return
+            if op == "other":
+                # a DIFFERENT crystal that shares name, formula, cell and group
+                # number with the source: its ordinary-CIF / standard-setting
+                # twin if the source is an unusual one, else the same sites in P1
+                spec = dict(self.source_spec)
+                if spec.get("kind") != "synthetic":
+                    spec = None
+                elif spec.get("quirks"):
+                    spec["quirks"] = None
+                else:
+                    spec["sg"] = [1, ""]
+                if spec is None:
+                    self._log(i, hi, op, "skipped")
+                    return
+                try:
+                    new = sources.build(spec, fs_dir=FS.dir("src%d" % len(self.world)))
+                except sources.SourceError:
+                    self._log(i, hi, op, "skipped:source")
+                    return
+                self.world.append(new)
+                self.titl0.append(new.titl)
+                self.repeat.append({})
+                self.last_mut.append(None)
+                self.last_raise.append(None)
+                self.armed.append(False)
+                self.stats["fork:other"] += 1
                 self._log(i, hi, op, "-> h%d" % (len(self.world) - 1))
                 self._check_others(i, hi, op, others)
                 return
